@@ -298,7 +298,7 @@ def oracle(plan, out):
         loc = line.split(" at ", 1)[1].split(" : ")[0] if " at " in line else "?"
         if "/verif/" in loc and "/verif/sim/facade" not in loc:
             continue
-        where = loc.replace("/repo/", "").rsplit(":", 1)[0]
+        where = loc.replace(__import__("vlib.core", fromlist=["REPO"]).REPO + "/", "").replace("/repo/", "").rsplit(":", 1)[0]
         v("panic", where, "panic (the shipped binary aborts here): %s ; hostile peers: %s" % (line[:300], kinds))
     if not R.ok:
         if not V:
